@@ -22,6 +22,12 @@
 //!   yR                          stop Y's replicator and start a new one
 //!   xpad,<kib>                  <kib> KiB of filler appended to X's disk in the same bucket (other partition)
 //!   b                           barrier + snapshot of both logs
+//! case line of the coordinator family:  co <rf> <n0x> <n0a1> <n0a2> <op>*
+//!   two COORDINATORS A1, A2, each a plain Database of its own running the real `transaction::spawn` / `run` with the
+//!   real node X as their one replica (they use X's member identity, as the ReplicateWrite cases do); the history 900..
+//!   is on X's / A1's / A2's disk up to n0x / n0a1 / n0a2 (a coordinator may be behind or ahead of the replica)
+//!   a1,<tx>,<k>,<flags> / a2,..  a client write coordinated by A1 / A2 (flags - | b): answered ok<first> | fail | db
+//!   xr,.. and b as above (b snapshots X, A1, A2)
 //! After every op, if Y has unanswered writes (a gap), the harness waits until Y's catch-up has gone quiet.
 //! observed:  res=<tok>;..  X=<log> Y=<log> W=<events visible through X's ReadPartition after a restart>
 //!   log: <first>:<tx>:<k>:<count[.count..]>,..   (oldest first)
@@ -45,7 +51,10 @@ use sierradb_cluster::write::confirm::ConfirmTransaction;
 use sierradb_cluster::write::error::{ConfirmTransactionError, WriteError};
 use sierradb_cluster::write::execute::ExecuteTransaction;
 use sierradb_cluster::write::replicate::{PartitionReplicatorActor, PartitionReplicatorActorArgs, ReplicateWrite};
-use sierradb_cluster::{ClusterActor, ClusterArgs, ResetCluster};
+use sierradb_cluster::circuit_breaker::WriteCircuitBreaker;
+use sierradb_cluster::write::transaction::{self, WriteConfig};
+use sierradb_cluster::{ClusterActor, ClusterArgs, ReplicaRefs, ResetCluster};
+use kameo::prelude::{Actor, Context, DelegatedReply, Message};
 use smallvec::SmallVec;
 use uuid::Uuid;
 
@@ -128,7 +137,47 @@ fn wcode(e: &WriteError) -> String {
     }
 }
 
+/// A coordinator node: its own database and the REAL coordinator code (transaction::spawn -> run,
+/// set_confirmations_with_retry, ConfirmTransaction, client reply) with X as its replica.
+struct Coordinator {
+    db: Database,
+    conf: ActorRef<ConfirmationActor>,
+    x: ActorRef<ClusterActor>,
+    xr: RemoteActorRef<ClusterActor>,
+    rf: u8,
+    breaker: Arc<WriteCircuitBreaker>,
+}
+impl Actor for Coordinator {
+    type Args = Self;
+    type Error = std::convert::Infallible;
+    async fn on_start(args: Self::Args, _r: ActorRef<Self>) -> Result<Self, Self::Error> { Ok(args) }
+}
+struct CoWrite(Transaction);
+impl Message<CoWrite> for Coordinator {
+    type Reply = DelegatedReply<Result<sierradb::writer_thread_pool::AppendResult, WriteError>>;
+    async fn handle(&mut self, CoWrite(t): CoWrite, ctx: &mut Context<Self, Self::Reply>) -> Self::Reply {
+        let (delegated, reply_sender) = ctx.reply_sender();
+        transaction::spawn(
+            WriteConfig {
+                database: self.db.clone(),
+                local_cluster_ref: self.x.clone(),
+                local_remote_cluster_ref: self.xr.clone(), // X accepts only members it knows: the coordinators use X's identity
+                local_alive_since: u64::MAX,
+                confirmation_ref: self.conf.clone(),
+                replicas: ReplicaRefs::from_iter([(self.xr.clone(), u64::MAX)]),
+                replication_factor: self.rf,
+                circuit_breaker: self.breaker.clone(),
+            },
+            t,
+            reply_sender,
+        );
+        delegated
+    }
+}
+
 struct Shared {
+    dba: [Database; 2],
+    coords: [ActorRef<Coordinator>; 2],
     rf: u8,
     parts: u16,
     dbx: Database,
@@ -140,6 +189,8 @@ struct Shared {
 }
 
 struct Case {
+    co: bool,
+    n0a: [u64; 2],
     idx: usize,
     pid: u16,
     limit: usize,
@@ -153,6 +204,14 @@ struct Case {
 
 fn parse_case(idx: usize, pid: u16, line: &str) -> Option<Case> {
     let t: Vec<&str> = line.split_whitespace().collect();
+    if t.len() >= 5 && t[0] == "co" {
+        let n0x: u64 = t[2].parse().ok()?;
+        let n0a = [t[3].parse().ok()?, t[4].parse().ok()?];
+        if n0x == 0 || n0x > 40 || n0a[0] > 40 || n0a[1] > 40 { return None; }
+        let ops: Vec<Vec<String>> = t[5..].iter().map(|o| o.split(',').map(|s| s.to_string()).collect()).collect();
+        if ops.iter().any(|o| !matches!(o[0].as_str(), "a1" | "a2" | "xr" | "b")) { return None; }
+        return Some(Case { co: true, n0a, idx, pid, limit: 1, n0x, n0y: 0, ops, restart: false, txs: HashMap::new(), ids: HashMap::new() });
+    }
     if t.len() < 5 || t[0] != "n" { return None; }
     let limit: usize = t[2].parse().ok()?;
     let n0x: u64 = t[3].parse().ok()?;
@@ -160,23 +219,27 @@ fn parse_case(idx: usize, pid: u16, line: &str) -> Option<Case> {
     if limit == 0 || n0x == 0 || n0y == 0 || n0y > n0x || n0x > 40 { return None; }
     let ops: Vec<Vec<String>> = t[5..].iter().map(|o| o.split(',').map(|s| s.to_string()).collect()).collect();
     let restart = ops.iter().any(|o| o[0] == "xR");
-    Some(Case { idx, pid, limit, n0x, n0y, ops, restart, txs: HashMap::new(), ids: HashMap::new() })
+    Some(Case { co: false, n0a: [0, 0], idx, pid, limit, n0x, n0y, ops, restart, txs: HashMap::new(), ids: HashMap::new() })
 }
 
 /// One partition's log as the disk holds it: structure (first sequence, transaction, events) from a scan; the
 /// confirmation counts from `read_transaction` (a direct read of the records). A scan goes through the segment block
 /// cache, which `set_confirmations` does not invalidate, so it can show an OLDER count: when it does, the entry is
 /// marked `~<scan count>` (known finding; the count on disk is the one before the mark).
-async fn read_log(db: &Database, pid: u16, ids: &HashMap<Uuid, u64>) -> Result<(String, u64), String> {
+async fn read_log(db: &Database, pid: u16, ids: &HashMap<Uuid, u64>) -> Result<(String, u64), String> { read_log2(db, pid, ids, false).await }
+
+/// `events_only`: a coordinator's set_confirmations covers the event records only (append.offsets), so the commit record
+/// of its multi-event transactions keeps the count it was appended with: show the events' counts
+async fn read_log2(db: &Database, pid: u16, ids: &HashMap<Uuid, u64>, events_only: bool) -> Result<(String, u64), String> {
     fn fmt(counts: &[u8]) -> String {
         if counts.iter().all(|&x| x == counts[0]) { counts[0].to_string() } else { counts.iter().map(|x| x.to_string()).collect::<Vec<_>>().join(".") }
     }
-    fn counts_of(c: sierradb::bucket::segment::CommittedEvents) -> Vec<u8> {
+    let counts_of = |c: sierradb::bucket::segment::CommittedEvents| -> Vec<u8> {
         let ccount = c.confirmation_count();
         let mut counts: Vec<u8> = c.into_iter().map(|e| e.confirmation_count).collect();
-        if counts.iter().any(|&x| x != ccount) || counts.is_empty() { counts.push(ccount); } // the commit record differs: show it too
+        if !events_only && (counts.iter().any(|&x| x != ccount) || counts.is_empty()) { counts.push(ccount); } // the commit record differs: show it too
         counts
-    }
+    };
     let mut log = Vec::new();
     let mut next = 0u64;
     let mut it = db.read_partition(pid, 0, IterDirection::Forward).await.map_err(|e| format!("read: {e}"))?;
@@ -368,6 +431,11 @@ impl<'a> Run<'a> {
 
     async fn snapshot(&mut self) -> Result<String, String> {
         let (x, _) = read_log(&self.sh.dbx, self.c.pid, &self.c.ids).await?;
+        if self.c.co {
+            let (a1, _) = read_log2(&self.sh.dba[0], self.c.pid, &self.c.ids, true).await?;
+            let (a2, _) = read_log2(&self.sh.dba[1], self.c.pid, &self.c.ids, true).await?;
+            return Ok(format!("X[{x}]A[{a1}]B[{a2}]"));
+        }
         let (y, _) = read_log(&self.sh.dby, self.c.pid, &self.c.ids).await?;
         Ok(format!("X[{x}]Y[{y}]"))
     }
@@ -441,6 +509,38 @@ impl<'a> Run<'a> {
                     Err(_) => "timeout".into(),
                 });
             }
+            "a1" | "a2" => {
+                let a = if f[0] == "a1" { 0 } else { 1 };
+                let (tx, k, fl) = (num(arg(1)?)?, num(arg(2)?)?, arg(3)?.to_string());
+                let t = self.tx(tx, k, fl.contains('b'))?;
+                let first_id = t.events()[0].event_id;
+                let r = tokio::time::timeout(Duration::from_secs(90), self.sh.coords[a].ask(CoWrite(t))).await;
+                let q = self.sh.rf / 2 + 1;
+                let tok = match r {
+                    Ok(Ok(ap)) => {
+                        // the coordinator told X (ConfirmTransaction, a `tell`) before it answered the client; X stores the
+                        // count asynchronously: wait for it where X holds the transaction at all
+                        let t0 = Instant::now();
+                        loop {
+                            match self.sh.dbx.read_transaction(self.c.pid, first_id).await.map_err(|e| format!("read_transaction: {e}"))? {
+                                Some(c) if c.first_partition_sequence() == Some(ap.first_partition_sequence)
+                                    && c.clone().into_iter().any(|e| e.confirmation_count < q) && t0.elapsed() < Duration::from_secs(30) => {
+                                    tokio::time::sleep(Duration::from_millis(5)).await;
+                                }
+                                _ => break,
+                            }
+                        }
+                        format!("ok{}", ap.first_partition_sequence)
+                    }
+                    Ok(Err(SendError::HandlerError(e))) => match e {
+                        WriteError::ReplicationQuorumFailed { .. } | WriteError::RequestTimeout => "fail".into(),
+                        other => wcode(&other),
+                    },
+                    Ok(Err(e)) => format!("err({})", format!("{e:?}").split_whitespace().next().unwrap_or("?")),
+                    Err(_) => "timeout".into(),
+                };
+                self.toks[i] = Some(tok);
+            }
             "xpad" => {
                 // filler in the same bucket (another partition id, beyond the cluster's): completes the 64 KiB blocks that
                 // hold this case's records, so that scans read them through the segment block cache
@@ -493,7 +593,7 @@ async fn run_case(sh: &Shared, c: &mut Case) -> Result<String, String> {
     let n = c.ops.len();
     let has_y = c.ops.iter().any(|o| o[0].starts_with('y'));
     let mut r = Run { sh, c, yrep: None, toks: vec![None; n], pend: Vec::new(), nbar: 0, has_y };
-    r.spawn_y().await;
+    if !r.c.co { r.spawn_y().await; }
     let mut err = None;
     for i in 0..n {
         if let Err(e) = r.op(i).await { err = Some(e); break; }
@@ -508,6 +608,11 @@ async fn run_case(sh: &Shared, c: &mut Case) -> Result<String, String> {
 
 async fn final_obs(sh: &Shared, c: &Case, res: &str) -> Result<String, String> {
     let (x, _) = read_log(&sh.dbx, c.pid, &c.ids).await?;
+    if c.co {
+        let (a1, _) = read_log2(&sh.dba[0], c.pid, &c.ids, true).await?;
+        let (a2, _) = read_log2(&sh.dba[1], c.pid, &c.ids, true).await?;
+        return Ok(format!("res={res} X={x} A1={a1} A2={a2}"));
+    }
     let (y, _) = read_log(&sh.dby, c.pid, &c.ids).await?;
     let w = match sh.cluster.ask(ReadPartition { partition_id: c.pid, start_sequence: 0, end_sequence: None, count: 100_000 }).await {
         Ok(r) => r.events.len().to_string(),
@@ -536,6 +641,9 @@ async fn child_run(rf: u8, lines: Vec<String>) -> Result<Vec<(String, String)>, 
     let diry = tempfile::Builder::new().prefix("sv-c10y-").tempdir().map_err(|e| e.to_string())?;
     let dbx = open_db(dirx.path())?;
     let dby = open_db(diry.path())?;
+    let dira = [tempfile::Builder::new().prefix("sv-c10a1-").tempdir().map_err(|e| e.to_string())?,
+                tempfile::Builder::new().prefix("sv-c10a2-").tempdir().map_err(|e| e.to_string())?];
+    let dba = [open_db(dira[0].path())?, open_db(dira[1].path())?];
     let q = rf / 2 + 1;
     // one partition per case and one that is not owned; a node starts one replicator per partition, so no more than needed
     let parts: u16 = ((lines.len() + 1).max(8)).min(PARTS as usize) as u16;
@@ -551,12 +659,15 @@ async fn child_run(rf: u8, lines: Vec<String>) -> Result<Vec<(String, String)>, 
     // history: the same confirmed single-event transactions on both disks (Y may be behind)
     for c in cases.iter_mut() {
         if uuid_to_partition_hash(key_for(c.pid)) % parts != c.pid { return Err(format!("key for partition {} is wrong", c.pid)); }
-        for j in 0..c.n0x {
-            let t = mk_tx(c.pid, c.idx, 900 + j, 1, false)?.with_confirmation_count(q);
+        let h = c.n0x.max(c.n0a[0]).max(c.n0a[1]);
+        for j in 0..h {
+            // what a coordinator holds beyond X's log are its own unconfirmed appends
+            let t = mk_tx(c.pid, c.idx, 900 + j, 1, false)?.with_confirmation_count(if j < c.n0x { q } else { 0 });
             c.ids.insert(t.transaction_id(), 900 + j);
             c.txs.insert(900 + j, t.clone());
-            dbx.append_events(t.clone()).await.map_err(|e| format!("prefill: {e}"))?;
-            if j < c.n0y { dby.append_events(t).await.map_err(|e| format!("prefill: {e}"))?; }
+            if j < c.n0x { dbx.append_events(t.clone()).await.map_err(|e| format!("prefill: {e}"))?; }
+            if j < c.n0y { dby.append_events(t.clone()).await.map_err(|e| format!("prefill: {e}"))?; }
+            for a in 0..2 { if j < c.n0a[a] { dba[a].append_events(t.clone()).await.map_err(|e| format!("prefill: {e}"))?; } }
         }
     }
     let cluster = ClusterActor::spawn(ClusterArgs {
@@ -584,7 +695,16 @@ async fn child_run(rf: u8, lines: Vec<String>) -> Result<Vec<(String, String)>, 
     let fid = kameo::actor::ActorId::new_with_peer_id(7, Keypair::generate_ed25519().public().to_peer_id());
     let foreign = rmp_serde::to_vec(&(fid,)).ok().and_then(|b| rmp_serde::from_slice::<RemoteActorRef<ClusterActor>>(&b).ok());
     if foreign.is_none() { return Err("cannot build a foreign coordinator ref".into()); }
-    let sh = Arc::new(Shared { rf, parts, dbx: dbx.clone(), dby: dby.clone(), cluster: cluster.clone(), coord, foreign, confy });
+    let mut coords = Vec::new();
+    for a in 0..2 {
+        let conf = ConfirmationActor::new(dba[a].clone(), rf, (0..parts).collect()).await.map_err(|e| format!("confirmation actor: {e}"))?;
+        coords.push(Coordinator::spawn(Coordinator {
+            db: dba[a].clone(), conf: Spawn::spawn(conf), x: cluster.clone(), xr: coord.clone(), rf,
+            breaker: Arc::new(WriteCircuitBreaker::with_defaults()),
+        }));
+    }
+    let coords: [ActorRef<Coordinator>; 2] = [coords[0].clone(), coords[1].clone()];
+    let sh = Arc::new(Shared { dba: dba.clone(), coords, rf, parts, dbx: dbx.clone(), dby: dby.clone(), cluster: cluster.clone(), coord, foreign, confy });
 
     // phase 1: all cases without a restart run concurrently, each on its own partition
     let mut results: HashMap<usize, Result<String, String>> = HashMap::new();
@@ -634,7 +754,7 @@ async fn child_run(rf: u8, lines: Vec<String>) -> Result<Vec<(String, String)>, 
         let o = o.or_else(|| obs.remove(&i)).unwrap_or_else(|| "HARNESS-ERROR lost".into());
         res.push((l, o));
     }
-    let _ = (dirx, diry);
+    let _ = (dirx, diry, dira);
     Ok(res)
 }
 
@@ -658,7 +778,7 @@ fn run_lines(a: &Args, lines: &[String], out: &mut Out) {
     for l in lines {
         let t: Vec<&str> = l.split_whitespace().collect();
         match t.get(1).and_then(|x| x.parse::<u8>().ok()) {
-            Some(rf) if t[0] == "n" && rf >= 1 && rf <= 12 => by_rf.entry(rf).or_default().push(l),
+            Some(rf) if (t[0] == "n" || t[0] == "co") && rf >= 1 && rf <= 12 => by_rf.entry(rf).or_default().push(l),
             _ => bad.push(l.clone()),
         }
     }
